@@ -75,6 +75,11 @@ func DecodeCTCP(e *Event) *CTCPEvent {
 		}
 	}
 
+	// The command must not be empty.
+	if s == 0 {
+		return nil
+	}
+
 	// Loop through checking the tag first.
 	for i := 0; i < s; i++ {
 		// Check for A-Z, 0-9.
